@@ -108,6 +108,14 @@ Delete(k) ==
               last' = Ret("delete", k, NoVal, f, 0)
        /\ UNCHANGED <<ttl, cap, hits, misses, evictions>>
 
+\* several deletions in one step (SearchCache.InvalidatePattern: one Delete per key whose text contains the pattern);
+\* the result is the number of entries removed, expired or not; the counters stay
+DeleteSet(R) ==
+    /\ ents' = SelectSeq(ents, LAMBDA e : e.k \notin R)
+    /\ use' = SelectSeq(use, LAMBDA x : x \notin R)
+    /\ last' = Ret("deleteset", NoKey, NoVal, FALSE, Cardinality(R \cap Present))
+    /\ UNCHANGED <<ttl, cap, hits, misses, evictions>>
+
 Clear ==
     /\ ents' = <<>> /\ use' = <<>>
     /\ hits' = 0 /\ misses' = 0 /\ evictions' = 0
